@@ -14,3 +14,16 @@ Proof. apply chk_sound_b. vm_compute. reflexivity. Qed.
 
 Lemma apply_pending_transactional : transactional ev_apply_pending.
 Proof. apply chk_sound_b. vm_compute. reflexivity. Qed.
+
+(* second analysis: wherever the key schedule of a new epoch is installed, the pending commit is
+   cleared - on every successful run of message processing and of apply_pending_commit *)
+From MlsV Require Import MustHit MustHitProofs.
+Local Open Scope string_scope.
+Definition installs_epoch (w : string) : bool := String.eqb w "self.key_schedule = ..".
+Definition clears_pending (w : string) : bool := String.eqb w "self.pending_commit = ..".
+
+Lemma incoming_clears_pending : must_hit installs_epoch clears_pending ev_incoming.
+Proof. apply must_hit_chk_sound. vm_compute. reflexivity. Qed.
+
+Lemma apply_pending_clears_pending : must_hit installs_epoch clears_pending ev_apply_pending.
+Proof. apply must_hit_chk_sound. vm_compute. reflexivity. Qed.
